@@ -195,6 +195,9 @@ def groups(tier, seed):
                     yield {'tree': t, 'layer': 'one-link:' + target}
     for t in pairs(tier):
         yield {'tree': t, 'layer': 'two-links'}
+    for mode in ('', 'dfs'):
+        for rd in ('sorted', 'rev'):
+            yield {'kind': 'odd-names', 'mode': mode, 'rd': rd, 'layer': 'odd-names'}
     # two disjoint roots with their own options; the same link (one inode, two names) lives in both
     for fa in (False, True):
         for fb in (False, True):
@@ -206,6 +209,8 @@ def groups(tier, seed):
 def single(case):
     if case.get('kind') == 'two-roots':
         return {k: case[k] for k in ('kind', 'fa', 'fb', 'order', 'mode', 'layer')}
+    if case.get('kind') == 'odd-names':
+        return {k: case[k] for k in ('kind', 'mode', 'rd', 'layer')}
     return {'tree': case['tree'], 'layer': case.get('layer'), 'only': case['cfg']}
 
 
@@ -315,9 +320,49 @@ def eval_two_roots(env, group):
     return outs
 
 
+def eval_odd_names(env, group):
+    """one link inode under two names whose relative target resolves differently; sibling directories whose names are
+    no valid UTF-8 (they must not be taken for one directory)"""
+    holder = env.newdir('c18o')
+    R = os.path.join(holder, 'R')
+    for d in ('a/r', 'a/t', 'b/r', 'b/t', 'o'):
+        os.makedirs(os.path.join(R, d))
+    for f in ('a/t/fa', 'b/t/fb'):
+        open(os.path.join(R, f), 'w').close()
+    os.symlink('../t', os.path.join(R, 'a/r/l'))
+    os.link(os.path.join(R, 'a/r/l'), os.path.join(R, 'b/r/l'), follow_symlinks=False)
+    for n, f in ((b'\xff', b'x'), (b'\xfe', b'y'), (b'z\xff\xfe', b'w')):
+        os.mkdir(os.path.join(os.fsencode(R), b'o', n))
+        open(os.path.join(os.fsencode(R), b'o', n, f), 'w').close()
+    outs = []
+    try:
+        q = ['name', 'from', 'R', 'symlinks'] + ([group['mode']] if group['mode'] else []) + ['into', 'list']
+        o = env.run(q, cwd=holder, preload=True, env={'FSX_READDIR': group['rd']}, timeout=10.0)
+        rows_, _ = model(R, True, None)
+        lossy = lambda n: os.fsencode(n).decode('utf-8', 'replace')
+        exp = sorted(lossy(n) for _, n, _ in rows_)
+        got = sorted(o.out.decode('utf-8', 'replace').split('\0')[:-1])
+        r_ = {'case': dict(group, argv=q), 'layer': 'odd-names', 'nt': True, 'trans': len(exp) + 1}
+        if o.timeout:
+            r_.update(status='viol', cls='no-termination', detail=dict(o.brief(), argv=q), sig=('hang',))
+        elif o.panicked or o.rc != 0 or o.err:
+            r_.update(status='viol', cls='status-or-stderr-with-nothing-unreadable', detail=dict(o.brief(), argv=q), sig=('rc', o.rc))
+        elif got != exp:
+            r_.update(status='viol', cls='odd-names:rows-behind-link-missing' if len(got) < len(exp) else 'odd-names:rows-differ', sig=('rows',),
+                      detail={'argv': q, 'missing': [x for x in exp if exp.count(x) > got.count(x)][:8], 'extra': [x for x in got if got.count(x) > exp.count(x)][:8]})
+        else:
+            r_.update(status='ok', sig=tuple(got))
+        outs.append(r_)
+    finally:
+        env.rmtree(holder)
+    return outs
+
+
 def eval_group(env, group, tier):
     if group.get('kind') == 'two-roots':
         return eval_two_roots(env, group)
+    if group.get('kind') == 'odd-names':
+        return eval_odd_names(env, group)
     holder = env.newdir('c18')
     os.makedirs(os.path.join(holder, 'real'))
     troot = os.path.join(holder, 'real', 't')
